@@ -571,6 +571,28 @@ func RunC04(d *Driver) *Report {
 			r.Violation(Case{Stream: "spec-examples", Input: ex[0], Real: got + " " + trunc(res.ParseErr+res.GoPanic, 200), Spec: ex[1] + " (docs/spec.md)"})
 		}
 	}
+	// a call of a function without a result is not a value: every cell of the type matrix (every operator with
+	// every kind of other operand, every position that takes a value) that uses one is rejected — a user procedure
+	// with and without parameter, and a built-in procedure
+	for _, src := range TypeMatrixPrograms() {
+		head, _, _ := strings.Cut(src, "print n s b an as aa mn ma y\n")
+		if !strings.Contains(head[strings.Index(head, "func q v:num"):], "(p)") && !strings.Contains(head, "(q 1)") {
+			continue
+		}
+		for _, v := range []string{src, strings.ReplaceAll(strings.ReplaceAll(src, "(q 1)", "(clear \"red\")"), "x := (p)", "x := (cls)")} {
+			if v == src && nprog%1 != 0 {
+				continue
+			}
+			nprog++
+			r.Count("none-operand:"+v, true)
+			_, perr, pp := ParseSrc(v)
+			if pp != "" {
+				r.Violation(Case{Stream: "none-operand", Input: v, Real: "crash " + trunc(pp, 300), Spec: "reject (a call without a value is not an operand, element, argument or condition)"})
+			} else if perr == "" {
+				r.Violation(Case{Stream: "none-operand", Input: v, Real: "accept", Spec: "reject (a call without a value is not an operand, element, argument or condition)"})
+			}
+		}
+	}
 	// operators, conditions, range, index, slice, field, type assertion
 	type operand struct{ pre, src, w string }
 	var ops []operand
